@@ -26,6 +26,9 @@ type Opts struct {
 	Streams bool
 	// NoStreams switches streaming methods off outside Runtime mode (checks calibrated without them).
 	NoStreams bool
+	// StreamForce steers the first streaming method of the design: "views" = a server stream of a result type
+	// with three views none of whose attributes is required or defaulted (so every view can be judged).
+	StreamForce string
 	// StreamViews allows result types with views as streamed results in Runtime mode.
 	StreamViews bool
 }
@@ -33,6 +36,7 @@ type Opts struct {
 type g struct {
 	r          *vc.Rand
 	sr         *vc.Rand // stream of the "is this method streaming" decisions (derived: does not shift r)
+	forced     bool     // Opts.StreamForce has been honoured
 	o          Opts
 	s          *spec.Spec
 	names      map[string]bool // user type names used
